@@ -210,12 +210,17 @@ def opPlus1 (vs : List Atom) : String :=
     else "err"
   | _ => if vs.any (fun a => outsideOps a.cls) then "n/a" else "err"
 
+/-- the pairs of a general comparison are examined in order: an equal pair answers `true`, a pair
+whose types do not admit the comparison raises XPTY0004 -/
+def opEqSeq (ok eq : Atom → Bool) : List Atom → String
+  | [] => "false"
+  | a :: r => if !ok a then "err" else if eq a then "true" else opEqSeq ok eq r
+
 /-- `$v = lit` where `ok a` says the atom's type admits the comparison and `eq a` that it is equal -/
 def opEq (ok eq : Atom → Bool) (vs : List Atom) : String :=
   if vs.isEmpty then "n/a"      -- atomization of an empty typed value raises FOTY0012 in the engine: outside the fragment
   else if vs.any (fun a => outsideOps a.cls) then "n/a"
-  else if vs.all ok then (if vs.any eq then "true" else "false")
-  else "err"
+  else opEqSeq ok eq vs
 
 def opEq7 (vs : List Atom) : String :=
   opEq (fun a => (isIntClsB a.cls || a.cls == .decimal) && !a.val.startsWith "py:") (fun a => a.val == "7") vs
